@@ -345,6 +345,10 @@ class Checker:
         for fi, fam_name in enumerate(fam_names):
             cls = getattr(replay_mod, fam_name)
             pkgdir, src, bound = cls.bounded_source(prog, None)
+            if self.tier == 'thorough' and getattr(cls, 'thorough', None):
+                # the thorough tier widens the bound of the family
+                src = cls.source(**cls.thorough)
+                bound += ' [thorough tier: widened to %s]' % ', '.join('%s=%s' % kv for kv in sorted(cls.thorough.items()))
             race = self.tier == 'thorough' and pid in RACE_PROPERTIES
             res, out = replay_mod.run_go_test(self.repo, pkgdir, src, os.path.join(wd.path, 'bounded-prop%d' % fi), timeout=600, race=race)
             self.bounded.append({'scope': 'composition of %s over whole inputs' % pid, 'bound': bound + (' (under the race detector)' if race else ''), 'result': res})
